@@ -12,6 +12,7 @@ import (
 	"bufio"
 	"fmt"
 	"os"
+	"strings"
 
 	"github.com/ctessum/geom"
 
@@ -516,6 +517,39 @@ func (g *gctx) reverseLine(n *node) bool {
 	return true
 }
 
+// exchange two (distinct) vertices of one point list: multi-point, line string, line of a
+// multi-line-string, or the cycle of a closed ring with at least three vertices (where a
+// transposition is never a rotation). Point lists are compared position by position, so this
+// displaces two vertices by a lattice step (>= 16 tol).
+func (g *gctx) swapVertices(n *node) bool {
+	m := g.pick(n.collect(func(m *node) bool {
+		if !hasPts(m) || m.kind == kP || m.kind == kB {
+			return false
+		}
+		if m.kind == kRing {
+			return closed(m) && len(m.pts) >= 4
+		}
+		return len(m.pts) >= 2
+	}))
+	if m == nil {
+		return false
+	}
+	k := len(m.pts)
+	if m.kind == kRing {
+		k--
+	}
+	i := g.r.Intn(k)
+	j := (i + 1 + g.r.Intn(k-1)) % k
+	if m.pts[i] == m.pts[j] {
+		return false
+	}
+	m.pts[i], m.pts[j] = m.pts[j], m.pts[i]
+	if m.kind == kRing {
+		m.pts[len(m.pts)-1] = m.pts[0]
+	}
+	return true
+}
+
 func (g *gctx) reverseRing(n *node) bool {
 	m := g.pick(n.collect(func(m *node) bool { return closed(m) && len(m.pts) >= 4 }))
 	if m == nil {
@@ -770,6 +804,7 @@ func (g *gctx) bigCases(out *bufio.Writer, huge bool) {
 		do("combo:T", func(b *node) bool { g.permute(b); g.rotate(b); g.perturb(b); return true })
 		do("displace:F", g.displace)
 		do("vdelete:F", g.deleteVertex)
+		do("vswap:F", g.swapVertices)
 		do("delete:F", g.deleteMember)
 		do("insert:F", g.insertMember)
 	}
@@ -801,10 +836,187 @@ func (g *gctx) bigCases(out *bufio.Writer, huge bool) {
 	}
 }
 
+// ---- repeated members at member counts around and above 64 / 128 -------------------------------
+//
+// Every member-list type (lines of a multi-line-string, rings of a polygon, polygons of a
+// multi-polygon, rings of ONE member polygon of a multi-polygon, members of a collection: points /
+// mixed types) with n members of which two (or three) are bit-identical copies of one member, the
+// copies sitting at chosen positions (both late, one early + one late, straddling 63|64, both early
+// as a control). B is A with
+//
+//	dupsame/dupcombo:T   nothing / members permuted, rings rotated, every coordinate perturbed < tol
+//	dupdisp:F            one vertex of ONE copy displaced (>= 1.5 tol), the other copy kept; also
+//	                     permuted + perturbed, and with the kept copy moved to the last position
+//	dupswap:F            another member replaced by a further copy of the repeated member (same
+//	                     counts, different multiset)
+//
+// Copies of one member are not "distinct members": the pair is inside the property's quantifier
+// (Spec.blockSeparated) and the expected answer is the specification's. An implementation that
+// tracks "already matched" members in a fixed-width word / small table answers T for dupdisp or
+// dupswap in one call direction once the member count exceeds its width.
+func (g *gctx) dupMember(kind int) *node {
+	for {
+		var m *node
+		switch kind {
+		case 0:
+			m = g.line(kLine)
+		case 1, 3:
+			if g.r.Bool() {
+				c := g.lattice(3)
+				m = &node{kind: kRing, pts: append(c, c[0])}
+			} else {
+				m = g.ring()
+			}
+		case 2:
+			m = &node{kind: kPG}
+			for i, c := 0, g.r.Range(1, 2); i < c; i++ {
+				m.kids = append(m.kids, g.ring())
+			}
+		case 4:
+			m = &node{kind: kP, pts: g.lattice(1)}
+		default:
+			m = g.base(g.r.Intn(8), 0)
+		}
+		if !vertexless(m) {
+			return m
+		}
+	}
+}
+
+func (g *gctx) dupBigCases(out *bufio.Writer, kind, n int, brief bool) {
+	ckind := []int{kMLS, kPG, kMPG, kPG, kGC, kGC}[kind]
+	// wrap: the member list under test is the geometry itself, or (kind 3) the ring list of the
+	// second polygon of a three-member multi-polygon
+	var sibl, sibr *node
+	if kind == 3 {
+		sibl, sibr = g.dupMember(2), g.dupMember(2)
+	}
+	wrap := func(c *node) geom.Geom {
+		if kind == 3 {
+			return (&node{kind: kMPG, kids: []*node{sibl, c, sibr}}).geom()
+		}
+		return c.geom()
+	}
+	others := make([]*node, 0, n)
+	for len(others) < n-1 {
+		others = append(others, g.dupMember(kind))
+	}
+	type pos struct{ i, j int }
+	// both copies last; one early (below 64) + one last; straddling 63|64
+	ps := []pos{{n - 2, n - 1}, {g.r.Intn(min(n-1, 64)), n - 1}}
+	if n > 65 {
+		ps = append(ps, pos{63, 64})
+	}
+	if brief { // both copies last only (the kept copy is then beyond every threshold below n-1)
+		ps = ps[:1]
+	}
+	for vi, p := range ps {
+		if p.i >= p.j {
+			continue
+		}
+		// A: others[0..n-2) in order, others[n-2] (= m) at i and its copy at j
+		m := others[n-2]
+		a := &node{kind: ckind}
+		k := 0
+		for t := 0; t < n; t++ {
+			switch t {
+			case p.i:
+				a.kids = append(a.kids, m.clone())
+			case p.j:
+				a.kids = append(a.kids, m.clone())
+			default:
+				a.kids = append(a.kids, others[k].clone())
+				k++
+			}
+		}
+		ag := wrap(a)
+		do := func(tag string, f func(b *node) bool) {
+			g.perturbed = false
+			b := a.clone()
+			if f(b) {
+				emit(out, tag, g.tol, ag, wrap(b))
+			}
+		}
+		if vi == 0 {
+			do("dupsame:T", func(b *node) bool { return true })
+			do("dupcombo:T", func(b *node) bool { g.permute(b); g.rotate(b); g.perturb(b); return true })
+		}
+		do("dupdisp:F", func(b *node) bool { return g.displace(b.kids[p.j]) })
+		do("dupdisp:F", func(b *node) bool { return g.displace(b.kids[p.i]) })
+		if vi >= 2 {
+			continue
+		}
+		do("dupdisp:F", func(b *node) bool { // both copies anywhere
+			if !g.displace(b.kids[p.j]) {
+				return false
+			}
+			g.permute(b)
+			return true
+		})
+		do("dupdisp:F", func(b *node) bool {
+			g.rotate(b)
+			g.perturb(b)
+			w := []int{p.i, p.j}[g.r.Intn(2)]
+			if !g.displace(b.kids[w]) {
+				return false
+			}
+			// the kept copy goes to the last position, the displaced one to a random place
+			keep := p.i + p.j - w
+			b.kids[keep], b.kids[n-1] = b.kids[n-1], b.kids[keep]
+			if w == n-1 {
+				w = keep
+			}
+			t := g.r.Intn(n - 1)
+			b.kids[w], b.kids[t] = b.kids[t], b.kids[w]
+			return true
+		})
+		do("dupswap:F", func(b *node) bool {
+			t := g.r.Intn(n)
+			for t == p.i || t == p.j {
+				t = g.r.Intn(n)
+			}
+			b.kids[t] = m.clone()
+			if g.r.Bool() {
+				g.permute(b)
+				g.perturb(b)
+			}
+			return true
+		})
+		if vi == 0 && !brief { // three copies, one of them displaced
+			t := g.r.Intn(n)
+			for t == p.i || t == p.j {
+				t = g.r.Intn(n)
+			}
+			a3 := a.clone()
+			a3.kids[t] = m.clone()
+			for _, w := range []int{t, p.i, p.j} {
+				g.perturbed = false
+				b := a3.clone()
+				if g.r.Bool() {
+					g.perturb(b)
+				}
+				if g.displace(b.kids[w]) {
+					emit(out, "dupdisp:F", g.tol, wrap(a3), wrap(b))
+				}
+			}
+		}
+	}
+}
+
 // ---- emitting --------------------------------------------------------------------------
+
+// concEvery > 0: every concEvery-th emitted pair is emitted a second time as a concurrent-callers
+// line (tag prefix "conc-", see conc.go)
+var concEvery, concCount int
 
 func emit(out *bufio.Writer, tag string, tol float64, a, b geom.Geom) {
 	fmt.Fprintf(out, "sim %s %s %s | %s\n", tag, vproto.F2H(tol), vproto.GeomToks(a), vproto.GeomToks(b))
+	if concEvery > 0 {
+		concCount++
+		if concCount%concEvery == 0 {
+			fmt.Fprintf(out, "sim conc-%s %s %s | %s\n", tag, vproto.F2H(tol), vproto.GeomToks(a), vproto.GeomToks(b))
+		}
+	}
 }
 
 func sq(x0, y0, s float64) geom.Path {
@@ -880,6 +1092,7 @@ func gen(seed uint64, tier string) {
 	z ^= z >> 29
 	r := vproto.NewRng(z*0xBF58476D1CE4E5B9 + seed)
 	corpus(out)
+	concEvery = 1499
 	n := 2500
 	if tier == "thorough" {
 		n = 40000
@@ -887,6 +1100,7 @@ func gen(seed uint64, tier string) {
 	dy := []float64{1, 0.5, 0.25, 0.0625, 0.0078125, 0.0009765625, 4,
 		1.0 / (1 << 20), 1.0 / (1 << 30), 1 << 20, 1 << 30} // dyadic scaling keeps a-b exact
 	nd := []float64{0.1, 0.01, 1e-9, 3}
+	bigCalls := 0
 	for it := 0; it < n; it++ {
 		g := &gctx{r: r, dyadic: it%5 != 4}
 		if g.dyadic {
@@ -928,6 +1142,16 @@ func gen(seed uint64, tier string) {
 		do("vinsert:F", g.insertVertex)
 		do("vdelete:F", g.deleteVertex)
 		do("type:F", g.changeType)
+		do("vswap:F", g.swapVertices)
+		do("vswap:F", func(b *node) bool {
+			if !g.swapVertices(b) {
+				return false
+			}
+			g.permute(b)
+			g.rotate(b)
+			g.perturb(b)
+			return true
+		})
 		do("ringmove:F", g.moveRing)
 		do("ringswap:F", g.swapRings)
 		do("ringmove:F", func(b *node) bool { g.permute(b); g.rotate(b); g.perturb(b); return g.moveRing(b) })
@@ -988,7 +1212,24 @@ func gen(seed uint64, tier string) {
 			g.pinchedCases(out)
 		}
 		if (tier != "thorough" && it%625 == 7 || it%2500 == 7) && g.dyadic {
-			g.bigCases(out, tier == "thorough" && it == 7)
+			concEvery, concCount = 13, 0 // large member / vertex counts: calls long enough to overlap
+			g.bigCases(out, bigCalls == 0) // first call: also a 1025-vertex ring
+			// repeated members: every member-list kind, one count of each group per call
+			// (kinds rotate over the calls; every kind gets every count group at least twice per run)
+			for kind := 0; kind < 6; kind++ {
+				d := (kind - bigCalls%6 + 6) % 6
+				if d < 4 || tier == "thorough" {
+					g.dupBigCases(out, kind, []int{65, 66, 67, 70}[(bigCalls+kind)%4], false)
+				}
+				if d >= 2 || tier == "thorough" {
+					g.dupBigCases(out, kind, []int{5, 63, 64, 33}[(bigCalls+kind)%4], false)
+				}
+				if d < 3 || tier == "thorough" {
+					g.dupBigCases(out, kind, []int{129, 130, 128, 131}[(bigCalls+kind)%4], tier != "thorough")
+				}
+			}
+			bigCalls++
+			concEvery, concCount = 1499, 0
 		}
 		// an unrelated geometry (fresh cells) of the same or another type
 		o := g.base(r.Intn(8), 1)
@@ -1013,14 +1254,22 @@ func impl() {
 		pan := vproto.Safe(func() {
 			p := vproto.NewParser(line)
 			p.Next() // sim
-			p.Next() // tag
+			tag := p.Next()
 			tol := p.F()
 			a := p.Geom()
 			if p.Next() != "|" {
 				panic("missing |")
 			}
 			b := p.Geom()
+			a0, b0 := clone(a), clone(b)
 			r1, r2, lay = evalAll(a, b, tol)
+			if strings.HasPrefix(tag, "conc-") && lay == "" && len(r1) == 1 && len(r2) == 1 {
+				rounds := 400
+				if len(line) > 4000 {
+					rounds = 48
+				}
+				r1, r2 = evalConc(a0, b0, tol, r1, r2, rounds)
+			}
 		})
 		if pan != "" {
 			r1, r2 = "badline:"+pan, "badline"
